@@ -139,7 +139,7 @@ Print Assumptions C14_partial_coarse_fragment.
 From CGV Require Import Reader.ReaderImpl Reader.Grammar Reader.Lin Reader.ReaderCheck
      Resolve.GraphOps Resolve.Pipeline Resolve.CopyProofs
      Frag.NDict Frag.StripImpl Frag.FragText Hydro.Hydrogens Hydro.Fragments
-     Hydro.SquashDefs Dialect.MachineAnnot Dialect.BaseAnnot Dialect.FragAnnot Dialect.CopyAnnot Dialect.TemplateAnnot.
+     Hydro.SquashDefs Reader.ReaderUnit Dialect.BaseAnnotUnits Dialect.MachineAnnot Dialect.BaseAnnot Dialect.FragAnnot Dialect.CopyAnnot Dialect.TemplateAnnot.
 Open Scope Z_scope.
 
 (** ---- base graph ---- *)
@@ -154,6 +154,11 @@ Proof. exact base_annotation_stays. Qed.
 Theorem C14_base_annotation_flat : forall fo l g, lins_ok fo l = true ->
   read_cgsmiles fo ("{"%char :: lins_str l ++ ["}"%char]) = Ok g -> annotated_as fo g (node_texts (lins_toks l)).
 Proof. exact base_annotation_flat. Qed.
+(** strings with branch multipliers (reader component's reader_sim_segs): [segs_toks] is the LONGHAND token list,
+    so every node of every copy of a multiplied unit carries the parse of its text *)
+Theorem C14_base_annotation_units : forall fo l g, segs_ok fo l = true ->
+  read_cgsmiles fo ("{"%char :: segs_str l ++ ["}"%char]) = Ok g -> annotated_as fo g (node_texts (segs_toks l)).
+Proof. exact base_annotation_units. Qed.
 (** the underlying fact on the token machine (any token list, hence also the longhand of branch multipliers) *)
 Theorem C14_machine_annotations : forall fo ts x, m_run fo ts m_init = Ok x ->
   node_keys (m_g x) = zseq (length (node_texts ts)) /\
@@ -244,6 +249,7 @@ Proof. exact base_annotation_example. Qed.
 
 Print Assumptions C14_base_annotation_stays.
 Print Assumptions C14_base_annotation_on_coarse_graph.
+Print Assumptions C14_base_annotation_units.
 Print Assumptions C14_strip_annotation_reaches_attributes.
 Print Assumptions C14_template_carries_annotation.
 Print Assumptions C14_template_annotation.
